@@ -769,6 +769,22 @@ theorem noninterference_of_code_counterexample : ¬ noninterference_of_code_full
   rintro ⟨h1, _, _⟩
   exact matcher_pushdown_counterexample (h1 "Alice")
 
+/-- The structural half of the hypothesis of `noninterference`, regenerated from the source on every run
+(call graph over kql/, meta/, projection/ and the export half of capsule/, private helpers folded into their
+public callers): the only functions that read element rows are `Context::load`, `Context::candidates`
+and `Context::admit`; `load` and `candidates` hand every row they read to `admit`; `admit` asks
+`may_read(..)?` before it renders and redacts what it rendered. What remains outside this fact — and is
+exactly where findings F-C19-1/2/3 live — is that row *content* can reach candidate selection through the
+indexes; the functions that probe them are pinned too. -/
+theorem read_paths_go_through_the_gate :
+    (∀ f ∈ rawElementReadOwners, f ∈ readGateFunctions) ∧ gateAdmitsAfterEveryRead = true ∧
+    indexProbeOwners = ["kql/mod.rs::active_concepts", "kql/mod.rs::candidates", "meta/describe.rs::run", "meta/inspect.rs::search"] := by
+  refine ⟨?_, gen_gate_admits_after_every_read, gen_index_probe_owners⟩
+  intro f hf
+  have := gen_raw_reads_only_in_gate
+  rw [List.all_eq_true] at this
+  simpa using this f hf
+
 /-! ## The command gate (tables regenerated from gate.rs) -/
 
 def writePermissions : List String :=
